@@ -3,6 +3,7 @@ package harness
 import (
 	"context"
 	"encoding/json"
+	"errors"
 	"fmt"
 	"math/big"
 	"sort"
@@ -28,6 +29,11 @@ import (
 // from its public factory around the same coordinator and the real PollingObserver (c17_plugin_test.go): accepts are
 // finalized reports (one or several keys), and heads, Observe()/Observation(), Report() and
 // ShouldTransmitAcceptedReport are interleaved with them, several observes per staged head.
+//
+// In both modes the coordinator is started (its own run loop on virtual time) and some polls fail: the log provider
+// returns an error (plain, or wrapping context.Canceled / DeadlineExceeded) or panics, from PerformLogs or from
+// StaleReportLogs, with or without logs on offer.  Logs offered on later polls must take effect, and the provider records
+// every poll: an open started coordinator must ask it at least every 2 s (Polls / End in the run's output).
 
 type c17Cfg struct {
 	Lockout  int64 `json:"lockout"`  // ns, constructor argument (<1 → default 20 min)
@@ -46,6 +52,13 @@ type c17Op struct {
 	Block  string   `json:"block,omitempty"`
 	Active []string `json:"active,omitempty"`
 	Ids    []string `json:"ids,omitempty"`
+	// "e": a poll on which the log provider fails. Where = "perform" (PerformLogs fails: nothing is processed),
+	// "stale" (StaleReportLogs fails: the perform logs of the poll are processed), "stalePartial" (StaleReportLogs
+	// returns its logs together with the error: they are processed too). Kind = "plain" | "canceled" | "deadline"
+	// (errors wrapping context.Canceled / DeadlineExceeded) | "panic". Logs = the "p"/"s" logs offered on that poll.
+	Where string  `json:"where,omitempty"`
+	Kind  string  `json:"kind,omitempty"`
+	Logs  []c17Op `json:"logs,omitempty"`
 }
 
 // c17Out is the answer of one operation (zero for operations without answer).
@@ -84,7 +97,17 @@ type c17RunOut struct {
 	Points [][2]int64 `json:"points"` // (number of ops processed, virtual ns of the probe)
 	Obs    []c17Obs   `json:"obs"`
 	Outs   []c17Out   `json:"outs"` // answer of op i
+	End    int64      `json:"end"`  // virtual ns of the last observation
+	Polls  c17Polls   `json:"polls"`
 	Note   string     `json:"note,omitempty"`
+}
+
+// c17Polls: what the log provider saw of the started coordinator's poller up to End.
+type c17Polls struct {
+	N      int   `json:"n"`
+	First  int64 `json:"first"`
+	Last   int64 `json:"last"`
+	MaxGap int64 `json:"maxGap"`
 }
 type c17Impl struct {
 	Runs []c17RunOut `json:"runs"`
@@ -98,12 +121,30 @@ type c17Logs struct {
 	stales   []ocr2keepersv2.StaleReportLog
 	pPolls   []int64
 	sPolls   []int64
+	failAt   string // "", "perform", "stale", "stalePartial": where the next poll fails
+	failKind string
+}
+
+func c17Failure(kind string) error {
+	switch kind {
+	case "canceled":
+		return fmt.Errorf("c17: log db: %w", context.Canceled)
+	case "deadline":
+		return fmt.Errorf("c17: log db: %w", context.DeadlineExceeded)
+	case "panic":
+		panic("c17: log provider panic")
+	}
+	return errors.New("c17: log db unavailable")
 }
 
 func (f *c17Logs) PerformLogs(context.Context) ([]ocr2keepersv2.PerformLog, error) {
 	f.mu.Lock()
 	defer f.mu.Unlock()
 	f.pPolls = append(f.pPolls, int64(time.Since(f.start)))
+	if f.failAt == "perform" {
+		f.failAt = ""
+		return nil, c17Failure(f.failKind)
+	}
 	out := f.performs
 	f.performs = nil
 	return out, nil
@@ -114,7 +155,30 @@ func (f *c17Logs) StaleReportLogs(context.Context) ([]ocr2keepersv2.StaleReportL
 	f.sPolls = append(f.sPolls, int64(time.Since(f.start)))
 	out := f.stales
 	f.stales = nil
+	switch f.failAt {
+	case "stale":
+		f.failAt = ""
+		return nil, c17Failure(f.failKind)
+	case "stalePartial":
+		f.failAt = ""
+		return out, c17Failure(f.failKind)
+	}
 	return out, nil
+}
+
+func (f *c17Logs) stats() c17Polls {
+	f.mu.Lock()
+	defer f.mu.Unlock()
+	p := c17Polls{N: len(f.pPolls)}
+	for i, t := range f.pPolls {
+		if i == 0 {
+			p.First = t
+		} else if g := t - f.pPolls[i-1]; g > p.MaxGap {
+			p.MaxGap = g
+		}
+		p.Last = t
+	}
+	return p
 }
 
 const c17Second = int64(time.Second)
@@ -139,6 +203,23 @@ func (o c17Op) accKeys() []string {
 }
 
 func (o c17Op) isLog() bool { return o.T == "p" || o.T == "s" }
+
+// effLogs are the logs an operation gets processed: itself for "p"/"s"; for a failing poll what checkLogs still handles.
+func (o c17Op) effLogs() []c17Op {
+	switch {
+	case o.isLog():
+		return []c17Op{o}
+	case o.T == "e" && o.Where != "perform":
+		var out []c17Op
+		for _, l := range o.Logs {
+			if l.T == "p" || (l.T == "s" && o.Where == "stalePartial") {
+				out = append(out, l)
+			}
+		}
+		return out
+	}
+	return nil
+}
 
 // c17RunOne executes one ordering on a fresh coordinator / plugin; must be called inside a bubble.
 func c17RunOne(in c17Input, r c17RunIn) (out c17RunOut) {
@@ -201,42 +282,62 @@ func c17RunOne(in c17Input, r c17RunIn) (out c17RunOut) {
 		}
 		offGrid()
 		op := r.Ops[i]
-		if !op.isLog() {
+		if !op.isLog() && op.T != "e" {
 			out.Times[i] = since()
 			o, nt := node.do(i, op, synctest.Wait)
 			out.Outs[i] = o
 			note(nt)
 			i++
 		} else {
-			// one poll: a maximal run perform* stale* of batched positions
+			// one poll: a failing poll with the logs it is offered, or a maximal run perform* stale* of batched positions
 			j := i
 			seenStale := false
 			logs.mu.Lock()
-			for j < len(r.Ops) && r.Ops[j].isLog() && (j == i || r.Batch[j]) {
-				o := r.Ops[j]
-				if o.T == "p" {
-					if seenStale {
+			batch := []c17Op{}
+			if op.T == "e" {
+				logs.failAt, logs.failKind = op.Where, op.Kind
+				for _, l := range op.Logs {
+					if l.T == "p" {
+						batch = append(batch, l)
+					}
+				}
+				for _, l := range op.Logs {
+					if l.T == "s" {
+						batch = append(batch, l)
+					}
+				}
+				j = i + 1
+			} else {
+				for j < len(r.Ops) && r.Ops[j].isLog() && (j == i || r.Batch[j]) {
+					if r.Ops[j].T == "p" && seenStale {
 						break
 					}
-					logs.performs = append(logs.performs, ocr2keepersv2.PerformLog{Key: ocr2keepersv2.UpkeepKey(o.Key),
-						TransmitBlock: ocr2keepersv2.BlockKey(o.TB), Confirmations: o.Confs, TransactionHash: fmt.Sprintf("0x%d", j)})
-				} else {
-					seenStale = true
-					logs.stales = append(logs.stales, ocr2keepersv2.StaleReportLog{Key: ocr2keepersv2.UpkeepKey(o.Key),
-						TransmitBlock: ocr2keepersv2.BlockKey(o.TB), Confirmations: o.Confs, TransactionHash: fmt.Sprintf("0x%d", j)})
+					seenStale = seenStale || r.Ops[j].T == "s"
+					batch = append(batch, r.Ops[j])
+					j++
 				}
-				j++
+			}
+			for k, o := range batch {
+				if o.T == "p" {
+					logs.performs = append(logs.performs, ocr2keepersv2.PerformLog{Key: ocr2keepersv2.UpkeepKey(o.Key),
+						TransmitBlock: ocr2keepersv2.BlockKey(o.TB), Confirmations: o.Confs, TransactionHash: fmt.Sprintf("0x%d.%d", i, k)})
+				} else {
+					logs.stales = append(logs.stales, ocr2keepersv2.StaleReportLog{Key: ocr2keepersv2.UpkeepKey(o.Key),
+						TransmitBlock: ocr2keepersv2.BlockKey(o.TB), Confirmations: o.Confs, TransactionHash: fmt.Sprintf("0x%d.%d", i, k)})
+				}
 			}
 			n0 := len(logs.pPolls)
 			logs.mu.Unlock()
-			// exactly one poll tick lies in (now, now + 1 s]
+			// exactly one poll tick lies in (now, now + 1 s] — if the poller is alive
 			time.Sleep(time.Second)
 			synctest.Wait()
 			logs.mu.Lock()
-			if len(logs.pPolls) != n0+1 || len(logs.sPolls) != n0+1 || len(logs.performs) != 0 || len(logs.stales) != 0 {
-				note(fmt.Sprintf("poll accounting: %d perform polls, %d stale polls since %d", len(logs.pPolls), len(logs.sPolls), n0))
+			at := since() // no poll: the logs were on offer for a whole cadence and are withdrawn now
+			if len(logs.pPolls) == n0+1 {
+				at = logs.pPolls[n0]
 			}
-			at := logs.pPolls[len(logs.pPolls)-1]
+			// what a poll did not take (a failed PerformLogs, a dead poller) is not offered again
+			logs.performs, logs.stales, logs.failAt = nil, nil, ""
 			logs.mu.Unlock()
 			for k := i; k < j; k++ {
 				out.Times[k] = at
@@ -258,6 +359,8 @@ func c17RunOne(in c17Input, r c17RunIn) (out c17RunOut) {
 		synctest.Wait()
 	}
 	probe(len(r.Ops))
+	out.End = since()
+	out.Polls = logs.stats()
 	return out
 }
 
@@ -313,8 +416,13 @@ func c17Admissible(r *Rng, ops []c17Op) []c17Op {
 	for len(left) > 0 {
 		var enabled []int // positions in left
 		for q, i := range left {
-			o := ops[i]
-			if !o.isLog() || !all[o.Key] || acc[o.Key] {
+			ok := true
+			for _, l := range ops[i].effLogs() {
+				if all[l.Key] && !acc[l.Key] {
+					ok = false
+				}
+			}
+			if ok {
 				enabled = append(enabled, q)
 			}
 		}
@@ -370,6 +478,13 @@ func c17Probes(ops []c17Op, extra []string) (probes, ckeys []string) {
 		case "h", "r":
 			if v := c17Big(o.Block); v != nil {
 				marks = append(marks, v)
+			}
+		case "e":
+			for _, l := range o.Logs {
+				ks = append(ks, l.Key)
+				if v := c17Big(l.TB); v != nil && l.T == "p" {
+					marks = append(marks, v)
+				}
 			}
 		}
 		for _, k := range ks {
@@ -596,6 +711,25 @@ func c17Gen(r *Rng, em *Emitter) c17Input {
 			}
 			continue
 		}
+		if r.Chance(7) {
+			// a poll on which the provider fails, with or without logs on offer
+			o := c17Op{T: "e", Where: []string{"perform", "perform", "stale", "stale", "stalePartial"}[r.Intn(5)],
+				Kind: []string{"plain", "canceled", "deadline", "panic"}[r.Intn(4)], Logs: []c17Op{}}
+			if o.Where == "stalePartial" && o.Kind == "panic" {
+				o.Kind = "plain" // a call cannot both return logs and panic
+			}
+			for i, m := 0, r.Intn(3); i < m; i++ {
+				kk := keys[r.Intn(len(keys))]
+				if r.Bool() {
+					o.Logs = append(o.Logs, c17Op{T: "p", Key: kk.key, TB: transmit(kk), Confs: confs()})
+				} else {
+					o.Logs = append(o.Logs, c17Op{T: "s", Key: kk.key, TB: transmit(kk), Confs: confs()})
+				}
+			}
+			ops = append(ops, o)
+			em.Hit("fail:" + o.Where + "/" + o.Kind)
+			continue
+		}
 		x := r.Intn(100)
 		switch {
 		case x < 34 || (!accepted[k.key] && x < 80):
@@ -787,6 +921,24 @@ func c17Edge() []c17Input {
 	A := func(ks ...string) c17Op { return c17Op{T: "A", Keys: ks} }
 	x := func(ks ...string) c17Op { return c17Op{T: "x", Keys: ks} }
 	rp := func(b string, ids ...string) c17Op { return c17Op{T: "r", Block: b, Ids: ids} }
+	e := func(where, kind string, logs ...c17Op) c17Op {
+		return c17Op{T: "e", Where: where, Kind: kind, Logs: logs}
+	}
+	fails := []c17Input{
+		// one failed poll of each kind, then the unlocking log: polling goes on, the log takes effect
+		mk(0, 0, 3*c17Second, []c17Op{a("10|1"), e("perform", "plain"), p("10|1", "12", 0)}),
+		mk(0, 0, 3*c17Second, []c17Op{a("10|1"), e("perform", "canceled"), p("10|1", "12", 0)}),
+		mk(0, 0, 3*c17Second, []c17Op{a("10|1"), e("stale", "deadline"), s("10|1", 0)}),
+		mk(0, 0, 3*c17Second, []c17Op{a("10|1"), e("perform", "panic"), p("10|1", "12", 0)}),
+		mk(0, 0, 3*c17Second, []c17Op{a("10|1"), e("stale", "panic"), s("10|1", 0)}),
+		// logs on offer while the provider fails: lost with PerformLogs, performs kept with StaleReportLogs,
+		// everything kept when the stale logs come back together with the error
+		mk(0, 0, 0, []c17Op{a("10|1"), a("10|2"), e("perform", "plain", p("10|1", "12", 0), s("10|2", 0))}),
+		mk(0, 0, 0, []c17Op{a("10|1"), a("10|2"), e("stale", "plain", p("10|1", "12", 0), s("10|2", 0))}),
+		mk(0, 0, 0, []c17Op{a("10|1"), a("10|2"), e("stalePartial", "deadline", p("10|1", "12", 0), s("10|2", 0))}, []int{1, 0, 2}),
+		// through the plugin: the first poll ever fails, later the accept and its log
+		mkp(0, 0, []c17Op{e("perform", "canceled"), h("10", "1"), o, a("10|1"), o, e("stale", "plain", p("10|1", "11", 0)), o, h("12", "1"), o}),
+	}
 	plug := []c17Input{
 		// one staged head, observed before and (twice) after one of its ids is accepted, then after the perform
 		mkp(0, 0, []c17Op{h("10", "1", "2"), o, a("10|1"), o, o, p("10|1", "12", 0), o, h("13", "1", "2"), o}),
@@ -802,7 +954,7 @@ func c17Edge() []c17Input {
 		// empty registry stages nothing; empty reports are errors
 		mkp(0, 0, []c17Op{h("10", "1"), h("11"), o, A(), x(), o}),
 	}
-	return append(plug, []c17Input{
+	return append(append(fails, plug...), []c17Input{
 		// accept only: pending for every block
 		mk(0, 1, 0, []c17Op{a("10|5")}),
 		// perform at 15: blocks > 15 pass
